@@ -2,8 +2,13 @@ package world
 
 import (
 	"context"
+	"fmt"
 	"math/big"
 	"sort"
+	"time"
+
+	"0chain.net/chaincore/block"
+	"github.com/0chain/common/core/statecache"
 
 	"0chain.net/core/config"
 
@@ -212,6 +217,10 @@ func (w *World) ExecRec(r *rec.Recorder, t *transaction.Transaction, extra rec.M
 	res := w.Exec(t)
 	post := w.snapCached(w.CurState)
 	if r != nil {
+		w.Rec = r
+		if res.Class == "chargeable" {
+			w.curChargeable++
+		}
 		m, shape, nt := w.TxnEvent(res, pre, post, extra)
 		r.Emit(m, shape, nt)
 	}
@@ -246,4 +255,87 @@ func (w *World) InitNonces(s util.MerklePatriciaTrieI) []pair {
 		out = append(out, pair{w.Name(id), sn.Leaves[id].Nonce})
 	}
 	return out
+}
+
+// ---------------------------------------------------------------- twin execution (C02)
+
+// twinBlock re-executes the applied transactions of the block that is being sealed on a fork of the
+// same previous block, with every chargeable-failed transaction replaced by a call that can only pay
+// its fee (an unknown function of the faucet contract, same sender, nonce and fee). If a failing call
+// leaves nothing behind but fee + nonce + error event, both executions are observationally equal:
+// same outcome class for every later transaction, same balances and nonces, same contract nodes.
+// (Client-state leaves are compared by balance and nonce only: they also store the hash of the last
+// transaction that touched them, which legitimately differs for the substituted transactions.)
+func (w *World) twinBlock() {
+	b := w.Cur
+	prev := b.PrevBlock
+	if prev == nil || prev.ClientState == nil {
+		return
+	}
+	tw := block.NewBlock(w.Chain.GetKey(), b.Round)
+	tw.MinerID = b.MinerID
+	tw.SetPreviousBlock(prev)
+	tw.CreationDate = b.CreationDate
+	tw.SetRoundRandomSeed(b.GetRoundRandomSeed())
+	tw.Hash = encryption.Hash("twin:" + b.Hash)
+	st := block.CreateStateWithPreviousBlock(prev, w.Chain.GetStateDB(), tw.Round)
+	bc := statecache.NewBlockCache(w.Chain.GetStateCache(), statecache.Block{Round: tw.Round, Hash: tw.Hash, PrevHash: tw.PrevHash})
+	firstDiff, substituted := 0, 0
+	classes := true
+	for i, t := range b.Txns {
+		var c *transaction.Transaction
+		if t.Status == transaction.TxnError {
+			substituted++
+			c = w.MakeTxn(TxnSpec{From: w.Keys[t.ClientID], To: Contracts["faucetsc"], Type: transaction.TxnTypeSmartContract,
+				Fn: "verif_twin_no_such_function", Fee: uint64(t.Fee), Nonce: t.Nonce, Time: t.CreationDate})
+		} else {
+			c = t.Clone()
+			c.Status, c.TransactionOutput, c.OutputHash = 0, "", ""
+			_ = c.ComputeProperties()
+		}
+		if w.Keys[t.ClientID] == nil {
+			return // sender outside the key ring: cannot build the twin
+		}
+		ctx, cancel := context.WithTimeout(context.Background(), 30*time.Second)
+		_, err := w.Chain.UpdateState(ctx, tw, st, c, bc)
+		cancel()
+		okA := true // in the real block every listed txn was applied
+		okB := err == nil
+		sameStatus := okB && ((t.Status == transaction.TxnError) == (c.Status == transaction.TxnError))
+		if (okA != okB || !sameStatus) && classes {
+			classes = false
+			firstDiff = i + 1
+		}
+	}
+	a := w.snapCached(w.CurState)
+	bsn := w.Snapshot(st)
+	leavesEq, nodesEq := true, true
+	for id, la := range a.Leaves {
+		lb, ok := bsn.Leaves[id]
+		if !ok || la.Balance != lb.Balance || la.Nonce != lb.Nonce {
+			leavesEq = false
+		}
+	}
+	if len(a.Leaves) != len(bsn.Leaves) {
+		leavesEq = false
+	}
+	diffNodes := 0
+	for p, h := range a.Nodes {
+		if _, isLeaf := a.Leaves[p]; isLeaf {
+			continue
+		}
+		if bsn.Nodes[p] != h {
+			nodesEq = false
+			diffNodes++
+		}
+	}
+	for p := range bsn.Nodes {
+		if _, ok := a.Nodes[p]; !ok {
+			nodesEq = false
+			diffNodes++
+		}
+	}
+	w.Rec.Emit(rec.M{"ev": "BlockTwin", "txns": len(b.Txns), "substituted": substituted, "classes_equal": classes,
+		"first_diff": firstDiff, "leaves_equal": leavesEq, "nodes_equal": nodesEq, "diff_nodes": diffNodes},
+		fmt.Sprintf("twin/%d/%v", substituted, classes && leavesEq && nodesEq), true)
 }
